@@ -107,6 +107,17 @@ def tv_sub(a, b):
 
 def tv_mul(a, b):
     a, b = shrink(a), shrink(b)
+    for x, y in ((a, b), (b, a)):
+        # multiplication by a literal power of two is a concatenation with zeros (no multiplier circuit)
+        if z3.is_bv_value(y.bv) and not y.signed:
+            v = y.bv.as_long()
+            if v == 0:
+                return tv_const(0)
+            if v == 1:
+                return x
+            if v & (v - 1) == 0:
+                k = v.bit_length() - 1
+                return TV(z3.Concat(x.bv, z3.BitVecVal(0, k)), x.signed)
     x, y, s = promote(a, b)
     w = x.size()
     tw = a.w + b.w + (1 if s else 0)
@@ -673,6 +684,12 @@ class Translator:
                 return self.ev(n.args[0])
             finally:
                 self.old = saved
+        if f == 'oldmem':   # oldmem(p, i): element i (a CURRENT value) of what p pointed to in the entry state
+            p = self.ev(n.args[0])
+            i = to_index(self.as_tv(self.ev(n.args[1])))
+            if not self.ctx.is_ptr(p):
+                raise ClauseError('oldmem of a non-pointer')
+            return self.ctx.elem(p, i, True)
         if f == 'pre':      # value at the entry of the innermost loop whose invariant this is (before the havoc)
             saved = self.old
             self.old = 'pre'
